@@ -17,6 +17,8 @@ struct CbN { void operator()(Q::Iterator, Q::Iterator) noexcept; };
 void force_n(Q& q, CbN& cb, size_t n) {
   q.pop_n<false, false, true>(cb, n);     // WAIT != WAKE on purpose: a transposition of the two flags is then visible
   q.push_n<true, true, false>(cb, n);
+  q.try_push_n<true, true>(cb, n);
+  q.try_pop_n<true, true>(cb, n);
 }
 void force(Q& q, Cb& cb) {
   q.push<true, true, true>(cb);
